@@ -133,7 +133,7 @@ func standalone() *explore.Scenario {
 			return hx.PubOK
 		}
 		msg := mkMsg(meta)
-		orig := msg.Copy()
+		orig := hx.Clone(msg)
 		var bareOut []*message.Message
 		var bareErr error
 		h := func(m *message.Message) ([]*message.Message, error) {
